@@ -179,10 +179,10 @@ def run(chk, w):
     chk.floor("message_field_reads", len(reads), 80)
     # group by switch case: the case blocks that dominate the read
     case_of = {}
-    sw = D.sw
     targets = defaultdict(list)
-    for cv, bb in sw["cases"]:
-        targets[bb].append(cv & 0xff)
+    for sw in D.switches:
+        for cv, bb in sw["cases"]:
+            targets[bb].append(cv & 0xff)
     for rid, (k, inst) in reads.items():
         best = None
         for bb, cvs in targets.items():
